@@ -57,3 +57,64 @@ Fixpoint chain_in_range (a : snap) (l : list snap) : bool :=
 
 (* result enum used by the harness: 1 Executed, 2 Canceled, 3 Queued *)
 Definition result_ok (from_client from_source : N) : bool := from_client =? from_source.
+
+(* ---------------------------------------------------------------- vocabulary of the theorems *)
+
+(* what the server memorised about the client: the Hello data or the data of
+   the last export *)
+Definition srv_believes (c : cfg) (hello : bool) (x : snap) : tdata :=
+  if hello then hello_data c x else mk_data c x.
+
+(* client and server agree on snapshot x and nothing is in flight *)
+Definition synced (p : pcfg) (s : st) (x : snap) (hello : bool) : Prop :=
+  st_err s = false /\ st_wire s = [] /\ st_pend s = None /\ st_conn s = true /\
+  cl_stuck (st_cl s) = false /\ cl_need (st_cl s) = false /\
+  client_view s = (mirror (p_codec p) x, s_q x, s_m x) /\
+  sv_last (st_sv s) = srv_believes (p_codec p) hello x.
+
+(* the server's belief is snapshot x, the client may hold anything *)
+Definition srv_at (p : pcfg) (s : st) (x : snap) (hello : bool) : Prop :=
+  st_err s = false /\ st_wire s = [] /\ st_pend s = None /\ st_conn s = true /\
+  cl_stuck (st_cl s) = false /\ cl_need (st_cl s) = false /\
+  sv_last (st_sv s) = srv_believes (p_codec p) hello x.
+
+(* a connected, error-free state *)
+Definition mkst sv cl wire pend cur sil rej syn np : st :=
+  {| st_sv := sv; st_cl := cl; st_wire := wire; st_pend := pend; st_cur := cur; st_err := false;
+     st_silent := sil; st_rejpush := rej; st_synced := syn; st_npush := np; st_conn := true;
+     st_initpush := false |}.
+
+(* in-order histories: rounds of source transitions followed by one export
+   that is delivered before anything else happens *)
+Inductive round :=
+| RPush (mid : list snap) (y : snap)     (* local transitions, then a push, delivered *)
+| RReply (mid : list snap) (y : snap).   (* a client-issued mutation: transitions, reply, delivered *)
+
+Definition round_end (r : round) : snap :=
+  match r with RPush _ y => y | RReply _ y => y end.
+
+Definition round_events (r : round) : list ev :=
+  match r with
+  | RPush mid y => map Src mid ++ [Src y; Push; Settle]
+  | RReply mid y => map Src mid ++ [Src y; Reply; Write; Settle]
+  end.
+
+Fixpoint last_end (x : snap) (rs : list round) : snap :=
+  match rs with
+  | [] => x
+  | r :: rest => last_end (round_end r) rest
+  end.
+
+(* every export is within the field widths of the previous one; a push round
+   exports a snapshot whose queue tick AND some synchronised tick moved *)
+Fixpoint rounds_ok (c : cfg) (x : snap) (rs : list round) : Prop :=
+  match rs with
+  | [] => True
+  | r :: rest =>
+    let y := round_end r in
+    length (s_time x) = length (s_time y) /\ snaps_in_range x y = true /\
+    match r with
+    | RPush _ _ => s_q x <> s_q y /\ tracked_changed c x y = true
+    | RReply _ _ => True
+    end /\ rounds_ok c y rest
+  end.
